@@ -9,6 +9,7 @@ import Driver.C15
 import Driver.C09
 import Driver.C17
 import Driver.C20
+import Driver.C16
 /-
   Line-protocol driver: one operation per input line, one canonical output line per operation.
   Imports `Model/` only (no Mathlib, no proofs) so that it links as a `lean_exe`.
@@ -28,7 +29,8 @@ def handlers : List Handler := [
   Driver.C15.handle,
   Driver.C09.handle,
   Driver.C17.handle,
-  Driver.C20.handle
+  Driver.C20.handle,
+  Driver.C16.handle
 ]
 
 def step (st : DState) (line : String) : DState × String :=
